@@ -38,6 +38,8 @@ type Engine struct {
 	externSeen  map[string]*ExternUse
 	mapInv      map[string]bool
 	decs        map[*ssa.Function]*DecSummary
+	ctxFas      map[*ssa.Function]*FuncAn
+	ctxBusy     map[*ssa.Function]bool
 }
 
 func NewEngine(prog *ssa.Program, cg *callgraph.Graph, inModule func(*ssa.Function) bool, goarch string) *Engine {
@@ -46,7 +48,7 @@ func NewEngine(prog *ssa.Program, cg *callgraph.Graph, inModule func(*ssa.Functi
 		sums: map[*ssa.Function]*Summary{}, sumBusy: map[*ssa.Function]bool{}, writes: map[*ssa.Function]*WriteSet{},
 		extWrites: map[*ssa.Function]*WriteSet{}, fieldInv: map[*types.Var]fieldInvRes{},
 		callees: map[ssa.CallInstruction][]*ssa.Function{}, callers: map[*ssa.Function][]ssa.CallInstruction{},
-		paramMaybeNil: map[*ssa.Parameter]string{}, mapInv: map[string]bool{}, decs: map[*ssa.Function]*DecSummary{}}
+		paramMaybeNil: map[*ssa.Parameter]string{}, mapInv: map[string]bool{}, decs: map[*ssa.Function]*DecSummary{}, ctxFas: map[*ssa.Function]*FuncAn{}, ctxBusy: map[*ssa.Function]bool{}}
 	switch goarch {
 	case "386", "arm", "mips", "mipsle", "wasm":
 		e.WordBits = 32
@@ -389,7 +391,7 @@ func (a *FuncAn) factsText(b *ssa.BasicBlock, g Lin) string {
 
 // Obligations enumerates and checks the obligations of one analysed function.
 func (e *Engine) Obligations(f *ssa.Function) []*Obl {
-	a := e.Analyze(f)
+	a := e.AnalyzeCtx(f)
 	if a == nil {
 		return nil
 	}
